@@ -36,6 +36,7 @@ func register(f *family) { families[f.name] = f }
 // An oracle checks a property statement directly on the real code.
 type oracleFailure struct {
 	Property string      `json:"property"`
+	Signature string     `json:"signature,omitempty"`
 	What     string      `json:"what"`
 	Family   string      `json:"family,omitempty"`
 	Case     string      `json:"case,omitempty"`
